@@ -1,6 +1,6 @@
 SPECIFICATION Spec
 CONSTANTS
-  MaxL = 8
+  MaxL = 9
   Variants <- Variants_all
 CHECK_DEADLOCK FALSE
 INVARIANT TypeOK
